@@ -67,6 +67,27 @@ Definition readable_b (hok : bytes -> bytes -> option bool) (roots : list bytes)
   forallb (hash_good_b hok) bs &&
   forallb (fun b => blen (fst b) + blen (snd b) <=? o_maxs default_ropts) bs.
 
+(* the clauses on a finished file, given what must be stored in it *)
+Definition prop_finished (o : wopts) (ro : option (list bytes)) (roots : list bytes) (stored : list block)
+           (hok : bytes -> bytes -> option bool) (finobs : val) (file : bytes) (inspobs verobs : val) : val :=
+    match (if w_v1 o then Some (IdxSorted []) else final_index o ro stored) with
+    | None => if tag_is finobs "err" then VT "ok" else fail "unknown-codec-accepted" ""
+    | Some fi =>
+      if negb (tag_is finobs "nil") then fail "finalize-failed" ""
+      else if negb (bytes_eqb file (layout o ro stored fi)) then fail "layout-differs" ""
+      else
+        match wf_parse o file with
+        | None => fail "not-wellformed" ""
+        | Some (rs, bs) =>
+          if negb (cids_eq rs roots && blocks_eq bs stored) then fail "content-differs-from-puts" ""
+          else if negb (readable_b hok roots stored) then VT "ok"
+          else if negb (is_tagf inspobs "ok") then fail "inspection-rejects" ""
+          else if negb (forallb (has_block stored) roots) then VT "ok"
+          else if is_tagf verobs "ok" then VT "ok"
+          else fail "verifier-rejects" (match roots with [] => "no-roots" | _ => "" end)
+        end
+    end.
+
 (* the property's clauses on what the implementation produced *)
 Definition prop_final (input obs : val) : val :=
   let k := v_fkind (vN (vnth 0 input)) in
@@ -79,25 +100,7 @@ Definition prop_final (input obs : val) : val :=
   if stream_v2 then VT "ok"                       (* refused at open: nothing to finalize *)
   else if negb (tag_is (vnth 0 obs) "nil") then fail "open-failed" ""
   else
-    let stored := spec_stored k o ro h in
-    let file := vB (vnth 3 obs) in
-    match (if w_v1 o then Some (IdxSorted []) else final_index o ro stored) with
-    | None => if tag_is (vnth 2 obs) "err" then VT "ok" else fail "unknown-codec-accepted" ""
-    | Some fi =>
-      if negb (tag_is (vnth 2 obs) "nil") then fail "finalize-failed" ""
-      else if negb (bytes_eqb file (layout o ro stored fi)) then fail "layout-differs" ""
-      else
-        match wf_parse o file with
-        | None => fail "not-wellformed" ""
-        | Some (rs, bs) =>
-          if negb (cids_eq rs roots && blocks_eq bs stored) then fail "content-differs-from-puts" ""
-          else if negb (readable_b hok roots stored) then VT "ok"
-          else if negb (is_tagf (vnth 4 obs) "ok") then fail "inspection-rejects" ""
-          else if negb (forallb (has_block stored) roots) then VT "ok"
-          else if is_tagf (vnth 5 obs) "ok" then VT "ok"
-          else fail "verifier-rejects" (match roots with [] => "no-roots" | _ => "" end)
-        end
-    end.
+    prop_finished o ro roots (spec_stored k o ro h) hok (vnth 2 obs) (vB (vnth 3 obs)) (vnth 4 obs) (vnth 5 obs).
 
 Definition run_finalfile (input : val) : val :=
   let file := vB (vnth 1 input) in
@@ -140,3 +143,54 @@ Definition run_finalwide (input : val) : val :=
 Definition prop_finalwide (input obs : val) : val :=
   if tag_is (vnth 1 obs) "nil" && (vN (vnth 2 obs) =? 0) then fail "index-unreadable" "wide-digest"
   else VT "ok".
+
+(* kind "finalresume": a session interrupted before Finalize, its file possibly followed by a zero tail (null
+   padding / a zero-filled crash tail), resumed (OpenReadWrite over the non-empty file / OpenReadableWritable),
+   more puts, Finalize.
+     input  = (kind opts1 roots batches1 tail opts2 batches2 hoktab hdrtab)    kind: 0 blockstore | 1 storage
+     output = (open1 outs1 reopen outs2 finalizeout file inspectverdict verifyverdict)
+   The finished file must carry the blocks of BOTH sessions: the stored list of the second session continues the
+   first one's (the generator keeps every option except ZeroLengthSectionAsEOF equal across the reopen). *)
+Definition run_finalresume (input : val) : val :=
+  let k := v_fkind (vN (vnth 0 input)) in
+  let o1 := apply_wopts (v_wopts (vnth 1 input)) in
+  let roots := vcids (vnth 2 input) in
+  let h1 := v_batches (vnth 3 input) in
+  let tail := vN (vnth 4 input) in
+  let o2 := apply_wopts (v_wopts (vnth 5 input)) in
+  let h2 := v_batches (vnth 6 input) in
+  let hok := hok_lookup (vL (vnth 7 input)) in
+  let hdr := hdr_lookup (vL (vnth 8 input)) in
+  let v_outs := fun outs : list (list out) => VL (map (fun l => VL (map v_out l)) outs) in
+  match open_new k o1 (is_nil_tag (vnth 2 input)) roots [] with
+  | Err e => VL [VL [VT "err"; v_err e]; VL []; VL [VT "nil"]; VL []; VL [VT "nil"]; VB []; VT "rej"; VT "rej"]
+  | Ok s0 =>
+    let '(s1, outs1) := put_batches s0 h1 [] in
+    let f1 := ws_file s1 ++ zerosN tail in
+    match resume hdr k true o2 roots f1 [] with
+    | inr (e, dv) =>
+      let file := d_file dv in
+      VL [VL [VT "nil"]; v_outs outs1; v_out (OErr e); VL []; VL [VT "nil"]; VB file;
+          v_verdict (inspect_check hok hdr default_ropts true file); v_verdict (verify_check hok hdr file)]
+    | inl s2 =>
+      let '(s3, outs2) := put_batches s2 h2 [] in
+      let '(s4, fo) := finalize s3 in
+      let file := ws_file s4 in
+      VL [VL [VT "nil"]; v_outs outs1; v_out ONil; v_outs outs2; v_out fo; VB file;
+          v_verdict (inspect_check hok hdr default_ropts true file); v_verdict (verify_check hok hdr file)]
+    end
+  end.
+
+Definition prop_finalresume (input obs : val) : val :=
+  let k := v_fkind (vN (vnth 0 input)) in
+  let o1 := apply_wopts (v_wopts (vnth 1 input)) in
+  let roots := vcids (vnth 2 input) in
+  let ro := v_roots_opt (vnth 2 input) in
+  let o2 := apply_wopts (v_wopts (vnth 5 input)) in
+  let hok := hok_lookup (vL (vnth 7 input)) in
+  if negb (tag_is (vnth 0 obs) "nil") then fail "open-failed" ""
+  else if negb (tag_is (vnth 2 obs) "nil") then VT "ok"     (* the reopen was refused: C12's subject *)
+  else
+    let stored := fold_left (spec_batch (stops k) o2 ro) (v_batches (vnth 6 input))
+                            (spec_stored k o1 ro (v_batches (vnth 3 input))) in
+    prop_finished o2 ro roots stored hok (vnth 4 obs) (vB (vnth 5 obs)) (vnth 6 obs) (vnth 7 obs).
